@@ -31,8 +31,14 @@ CORPUS = [
                     "Calculated and received MD5 digest do not match.")
 
             # Decrypt frame
-            return Security.decrypt_aes(encrypted_frame)""", """            if Security.sign(bytes(packet[:-16])) == rx_hash:
+            try:
                 return Security.decrypt_aes(encrypted_frame)
+            except ValueError as e:
+                raise ProtocolError("Failed to decrypt packet payload.") from e""", """            if Security.sign(bytes(packet[:-16])) == rx_hash:
+                try:
+                    return Security.decrypt_aes(encrypted_frame)
+                except ValueError as e:
+                    raise ProtocolError("Failed to decrypt packet payload.") from e
             raise ProtocolError(
                 "Calculated and received MD5 digest do not match.")""", "S"),
     M("n-hoist-local", L, "if Security.sign(bytes(packet[:-16])) != rx_hash:",
